@@ -54,6 +54,9 @@ def match_known(known, pid, ob):
     return None
 
 
+THOROUGH_CONFIGS = [("scalar", "char32-scalar"), ("avx2", "char16-avx2"), ("sse2-noescape", "wchar"), ("char16", "char16"), ("char32", "char32")]
+
+
 def main():
     ap = argparse.ArgumentParser()
     ap.add_argument("pid", nargs="?")
@@ -85,9 +88,26 @@ def main():
     try:
         mod = importlib.import_module("rules." + pid)
         rules = mod.run(ctx) or []
+        if tier == "thorough" and not getattr(mod, "OWN_CONFIG_SWEEP", False):
+            # the same rules again on the other build configurations: code under #if QENTEM_AVX2 / scalar / no-escape and
+            # the instantiations for the wide character types are only visible there
+            for (pc, ic) in THOROUGH_CONFIGS:
+                ctx.pattern_default, ctx.inst_default = pc, ic
+                more = mod.run(ctx) or []
+                for r in more:
+                    r.rid_config = "%s/%s" % (pc, ic)
+                    for ob in r.obs:
+                        ob.fn_q = "%s [%s|%s]" % (ob.fn_q, pc, ic)
+                rules += more
+            ctx.pattern_default, ctx.inst_default = "sse2", "sse2"
+        # a rule with no instance and no floor decides nothing on this tree: it is not reported as a rule
+        rules = [r for r in rules if r.obs or r.floor or r.broken]
         for r in rules:
             r.finish()
-            if r.floor is not None and len(r.obs) < r.floor:
+            floor = r.floor
+            if floor is not None and getattr(r, "rid_config", None):
+                floor = int(floor * 0.8)   # other configurations compile a few call sites away (#if); the hand-confirmed count is the default configuration's
+            if floor is not None and len(r.obs) < floor:
                 broken.append("rule %s matched %d instances, fewer than the %d confirmed by hand" % (r.rid, len(r.obs), r.floor))
             broken.extend("rule %s: %s" % (r.rid, b) for b in r.broken)
     except AnalysisBroken as e:
